@@ -801,6 +801,67 @@ rc::Gen<Case> gen_acc() {
                    rc::gen::just(std::vector<Op>{}));
 }
 
+// ---------------------------------------------------------------- very large total weights through the merge tree
+// A digest merged with itself (or with a copy of itself) doubles every weight: d doublings of an m-value digest stand for the stream in which
+// each value occurs 2^d times. Total weight, extremes, and the coherence of the answers are known without a model of 2^d * m values.
+// tdigest<float> counts weights in 32 bits, so its totals stay below 2^31; tdigest<double> goes to 2^45.
+template <typename T> void huge_weight(const Case& cs, const char* tname) {
+  static const uint16_t KS[] = {10, 20, 50, 100, 200};
+  const uint16_t k = KS[static_cast<uint64_t>(cs.get("k", 0)) % 5];
+  const uint64_t m = 1 + static_cast<uint64_t>(cs.get("m", 0)) % 60;
+  const int dmax = std::is_same<T, float>::value ? 30 : 45;
+  int d = static_cast<int>(static_cast<uint64_t>(cs.get("d", 0)) % (dmax + 1));
+  while (d > 0 && (m << d) >= (std::is_same<T, float>::value ? (1ull << 31) : (1ull << 46))) --d;
+  const int via = static_cast<int>(cs.get("via", 0) % 3);
+  tdigest<T> td(k);
+  vf::Rng r(static_cast<uint64_t>(cs.get("seed", 1)) + 17);
+  std::vector<T> vals;
+  for (uint64_t i = 0; i < m; ++i) { const T v = static_cast<T>(static_cast<double>(r.below(4001)) * 0.25 - 500.0); vals.push_back(v); td.update(v); }
+  std::sort(vals.begin(), vals.end());
+  for (int j = 0; j < d; ++j) {
+    if (via == 0) td.merge(td);
+    else if (via == 1) { tdigest<T> cp(td); td.merge(cp); }
+    else { tdigest<T> cp(td); cp.merge(td); td = std::move(cp); }
+  }
+  const uint64_t total = m << d;
+  std::ostringstream c; c << "tdigest<" << tname << "> k=" << k << " " << m << " values doubled " << d << " times (total weight " << total << "): ";
+  const std::string ctx = c.str();
+  VF_CHECK(static_cast<uint64_t>(td.get_total_weight()) == total, "total-weight", ctx << "get_total_weight " << td.get_total_weight());
+  VF_CHECK(!td.is_empty() && td.get_min_value() == vals.front() && td.get_max_value() == vals.back(), "min-exact", ctx << "min " << td.get_min_value() << " max " << td.get_max_value() << " expected " << vals.front() << " " << vals.back());
+  VF_CHECK(td.get_quantile(0.0) == vals.front() && td.get_quantile(1.0) == vals.back(), "quantile-extremes", ctx << "quantile(0) " << td.get_quantile(0.0) << " quantile(1) " << td.get_quantile(1.0) << ", min " << vals.front() << " max " << vals.back());
+  T pq = vals.front();
+  for (int i = 0; i <= 200; ++i) {
+    const double rk = i < 100 ? i / 100.0 : 1.0 - std::ldexp(1.0, -(i - 99));   // the upper tail is approached geometrically (ranks within a few weights of 1)
+    if (rk < 0 || rk > 1) continue;
+    const T q = td.get_quantile(rk);
+    VF_CHECK(q >= vals.front() && q <= vals.back(), "quantile-range", ctx << "quantile(" << rk << ") = " << q << " outside [min, max]");
+    if (i < 100) { VF_CHECK(q >= pq, "quantile-monotone", ctx << "quantile decreases at rank " << rk << ": " << pq << " -> " << q); pq = q; }
+  }
+  {
+    // the geometric tail is increasing in rank too
+    T pt = td.get_quantile(0.5);
+    for (int i = 1; i <= 60; ++i) { const double rk = 1.0 - std::ldexp(1.0, -i); const T q = td.get_quantile(rk); VF_CHECK(q >= pt, "quantile-monotone", ctx << "quantile decreases towards rank 1 at " << rk << ": " << pt << " -> " << q); pt = q; }
+    VF_CHECK(td.get_quantile(1.0) >= pt, "quantile-monotone", ctx << "quantile(1) " << td.get_quantile(1.0) << " below quantile just under 1 " << pt);
+  }
+  double pr = -1;
+  for (size_t i = 0; i < vals.size(); ++i) {
+    const double rk = td.get_rank(vals[i]);
+    VF_CHECK(rk >= 0 && rk <= 1 && rk >= pr - 1e-12, "rank-monotone", ctx << "rank(" << vals[i] << ") = " << rk << " after " << pr);
+    pr = std::max(pr, rk);
+  }
+  vf::label(std::string("huge-weight:") + tname);
+  if (total >= (1ull << 25)) vf::label("total-weight>=2^25");
+  if (total >= (1ull << 25)) vf::nontrivial();
+}
+void prop_huge(const Case& cs) {
+  if (cs.get("type", 0) & 1) huge_weight<float>(cs, "float"); else huge_weight<double>(cs, "double");
+}
+rc::Gen<Case> gen_huge() {
+  using namespace vf;
+  return make_case({{"type", pick({0, 1})}, {"k", pick({0, 1, 2, 3, 4})}, {"m", range(0, 59)}, {"d", rc::gen::weightedOneOf<int64_t>({{1, range(0, 20)}, {3, range(21, 45)}})}, {"via", pick({0, 1, 2})}, {"seed", range(1, 1 << 20)}},
+                   rc::gen::just(std::vector<Op>{}));
+}
+
 }  // namespace
 
 int main(int argc, char** argv) {
@@ -808,6 +869,7 @@ int main(int argc, char** argv) {
   subs.push_back({"main", gen_main, prop_main, 0.61});
   subs.push_back({"smallk", gen_smallk, prop_main, 0.36});
   subs.push_back({"acc", gen_acc, prop_acc, 0.03});
+  subs.push_back({"huge_weight", gen_huge, prop_huge, 0.05, 100});
   return vf::main_driver(argc, argv, "C17", "c17_tdigest",
                          "case = value type (double/float) + k per digest slot + generated history over 4 digests (edge-value updates incl. NaN/inf, 11 bulk value "
                          "patterns, merges in any shape, compress, copy, serialize/deserialize round trips that carry the history on, query batteries); exact "
